@@ -272,6 +272,7 @@ theorem lookup_map_replace {K V : Type} [DecidableEq K] (l : List (K × V)) (k q
       · have h1 : (q == x) = false := by simpa using hqx
         simp [List.lookup_cons, hx, h1, ih]
 
+omit [Ring E] in
 theorem renameKey_tng? (cx cx1 : Cx E) (k kN : TKey) (h : cx.renameKey k kN = .ok cx1) :
     cx1.tng? kN = cx.tng? k := by
   obtain ⟨_, _, hnew, rfl⟩ := renameKey_ok cx cx1 k kN h
@@ -287,6 +288,7 @@ theorem renameKey_tng? (cx cx1 : Cx E) (k kN : TKey) (h : cx.renameKey k kN = .o
   rw [e] at key
   exact key
 
+omit [Ring E] in
 theorem duplicateKey_tng? (cx cx2 : Cx E) (k kN : TKey) (t : Tng) (ht : cx.tng? k = some t)
     (h : cx.duplicateKey k kN = .ok cx2) : cx2.tng? k = some t ∧ cx2.tng? kN = some t := by
   obtain ⟨_, t0, ht0, hnew, rfl⟩ := duplicateKey_ok cx cx2 k kN h
@@ -298,6 +300,7 @@ theorem duplicateKey_tng? (cx cx2 : Cx E) (k kN : TKey) (t : Tng) (ht : cx.tng? 
   rw [lookup_none_of_not_mem cx.verts kN hnew]
   simp
 
+omit [Ring E] in
 theorem deloopWith_tng? (ops : EdgeOps E) (cx cx' : Cx E) (k q : TKey) (r : Nat) (birth death : Dot) (hq : q ≠ k)
     (h : cx.deloopWith ops k r birth death = .ok cx') : cx'.tng? q = cx.tng? q := by
   obtain ⟨_, _, t', _, _, _, _, rfl⟩ := deloopWith_ok ops cx cx' k r birth death h
@@ -409,6 +412,7 @@ theorem deloop_ent (ops : EdgeOps E) (cx cx' : Cx E) (k : TKey) (r : Nat) (upd :
         | (subst hb'; simp [hkX, hkI, hXI, hXI.symm, hkX.symm, hkI.symm, hself, hX1, hX2, hI1, hI2, ha1, ha2, ha3])
         | simp [hkX, hkI, hXI, hXI.symm, hkX.symm, hkI.symm, hself, hX1, hX2, hI1, hI2, ha1, ha2, ha3, hb1, hb2, hb3]
 
+omit [Ring E] in
 /-- the vertex set after `deloop` -/
 theorem deloop_vertex_set (ops : EdgeOps E) (cx cx' : Cx E) (k : TKey) (r : Nat) (upd : List TKey) (t : Tng) (c : Path)
     (hwf : WF ops cx) (ht : cx.tng? k = some t) (hc : t[r]? = some c) (h : cx.deloop ops k r = .ok (upd, cx')) :
